@@ -67,6 +67,20 @@ def _history(draw, gen: int, max_ops: int):
             rec = o[1][v % len(o[1])]
             _mutate_one_field(gen, o[0], rec, w)
         ops.insert(i + 1, o)
+    # a slowly creeping reading (one history in three): the same zone record again and again with only the temperature
+    # (or only the set-point) moving by ONE raw unit per frame - the smallest change a console can report
+    if zone_ids and draw(st.integers(0, 2)) == 0:
+        z = draw(st.sampled_from(zone_ids))
+        rec = dict(draw(con.zone_state_strategy(gen, z)), sensor=True)
+        rec["temp_raw"] = draw(st.integers(600, 900))
+        rec["setpoint_raw"] = draw(st.integers(10, 30)) if gen == 4 else draw(st.integers(50, 200))
+        field = draw(st.sampled_from(["temp_raw", "temp_raw", "setpoint_raw"]))
+        creep = []
+        for _ in range(draw(st.integers(3, 7))):
+            creep.append(["zone_status", [dict(rec)]])
+            rec[field] += draw(st.sampled_from([1, 1, -1]))
+        at = draw(st.integers(len(first), len(ops)))
+        ops[at:at] = creep
     # resolve "unsubscribe_nth" against the subscriptions active at that point
     active, out = [], []
     for o in ops:
